@@ -59,6 +59,8 @@ def tasks_c01(tier, seed):
         ts += explore("Q8", "w1-in4-default-direct", 2, timeout="60s") + explore("Q8", alt, 2, timeout="60s") + explore("Q8", CFG_DEFAULT, 1, shards=2, timeout="60s")
         # a backlog of 36 callbacks on one group while another group waits and a further submission arrives
         ts += explore("Q9", "w1-in4-default-direct", 2, shards=2, timeout="60s") + explore("Q9", CFG_DEFAULT, 1, shards=4, timeout="60s")
+        # two patterns sharing one ${tag} group template with the tag at different positions
+        ts += explore("Q11", "w2-in4-tagged-direct", 1, timeout="60s") + explore("Q11", alt, 2, timeout="60s")
         # a chain of 700 callbacks each submitting the next one to its own group (the group is never idle)
         ts += explore("Q10", "w1-in4-default-direct", 1, timeout="60s") + explore("Q10", CFG_DEFAULT, 0, timeout="60s")
         # a second Serve as soon as Shutdown has returned, with a callback of the first epoch still to finish
